@@ -367,7 +367,7 @@ func makeRun(p params) explore.RunFunc {
 		logBuf.Reset()
 		defs.ForwarderMaxPendingChunksForAck = p.ackWindow
 		e := &env{p: p, consumed: map[string]int{}, leftover: map[string]int{}, taken: map[string]bool{}}
-		res := vsched.Run(vsched.Options{Choose: choose, Trace: trace, MaxSteps: 20000}, func() {
+		res := vsched.Run(vsched.Options{Choose: choose, Trace: trace, MaxSteps: 20000, StateKeys: true, EnvState: e.stateHash}, func() {
 			verdict = drive(e)
 		})
 		switch res.Status {
@@ -624,4 +624,32 @@ func main() {
 			"bounds: <=3 chunks, ack window 1-2, deviation bound as listed per scenario",
 		},
 	})
+}
+
+// stateHash summarises the scripted environment for state keys.
+func (e *env) stateHash() uint64 {
+	h := uint64(1469598103934665603)
+	mix := func(s string) {
+		for i := 0; i < len(s); i++ {
+			h ^= uint64(s[i])
+			h *= 1099511628211
+		}
+		h ^= 0xff
+		h *= 1099511628211
+	}
+	for _, c := range e.conns {
+		if c.closed {
+			mix("closed")
+		}
+		mix(strings.Join(c.sentOK, ","))
+		mix(strings.Join(c.pending, ","))
+		mix(strings.Join(c.acked, ","))
+		mix(strings.Join(c.tried, ","))
+	}
+	for i := 0; i < e.p.nChunks; i++ {
+		id := chunkID(i)
+		mix(fmt.Sprint(e.consumed[id], e.leftover[id], e.taken[id]))
+	}
+	mix(fmt.Sprint(e.finished, len(e.viol)))
+	return h
 }
